@@ -26,7 +26,7 @@ from ..lifecycle import Lifecycle
 from ..repo import AnalysisError, dotted, own_nodes
 from .c07 import registry
 from .c12 import reset_order
-from .common import DISPATCHER, OBSERVER, is_empty_dict
+from .common import DISPATCHER, OBSERVER, is_empty_dict, source_pos
 
 MANIFEST = {
     "text": (
@@ -67,7 +67,7 @@ def run(ctx):
         raise AnalysisError("CompositeFeatureObserver.initialize_features/_set_column_names vanished")
 
     def loops(fi):
-        fs = sorted([n for n in own_nodes(fi.node) if isinstance(n, ast.For)], key=lambda n: n.lineno)
+        fs = sorted([n for n in own_nodes(fi.node) if isinstance(n, ast.For)], key=source_pos(fi.node))
         return [(ast.unparse(n.iter), ast.unparse(n.target)) for n in fs[:2]]
 
     a, b = loops(init_f), loops(cols)
